@@ -86,6 +86,38 @@ theorem C05_disabled_passthrough (buf c : Bytes) :
     recv { enabled := false, buf := buf } c = ({ enabled := false, buf := buf }, [c]) := by
   simp [recv]
 
+theorem run_disabled_aux (b : Bytes) (raw acc : List Bytes) :
+    raw.foldl (fun (a : St × List Bytes) c => let r := recv a.1 c; (r.1, a.2 ++ r.2)) ({ enabled := false, buf := b }, acc)
+      = ({ enabled := false, buf := b }, acc ++ raw) := by
+  induction raw generalizing acc with
+  | nil => simp
+  | cons c cs ih =>
+    rw [List.foldl_cons]
+    have h : (let r := recv (({ enabled := false, buf := b } : St), acc).1 c; (r.1, (({ enabled := false, buf := b } : St), acc).2 ++ r.2))
+        = (({ enabled := false, buf := b } : St), acc ++ [c]) := by simp [recv]
+    rw [h, ih]
+    simp
+
+/-- The way a login uses the layer: framing is off while the raw preamble travels — whatever arrives then is handed up as it is and leaves
+    no trace in the layer — and is switched on for the rest of the same connection: the frames that follow are delivered exactly, in any
+    chunking, whatever was received before the switch. -/
+theorem C05_frames_after_the_switch (raw : List Bytes) (fs : List Bytes) (hfs : FramesOK fs) (cs : List Bytes)
+    (hcs : cs.flatten = stream fs) :
+    let s0 : St := { enabled := false, buf := [] }
+    run s0 raw = (s0, raw) ∧ run { (run s0 raw).1 with enabled := true } cs = ({ enabled := true, buf := [] }, fs) := by
+  have h1 : run { enabled := false, buf := [] } raw = ({ enabled := false, buf := [] }, raw) := by
+    unfold run
+    rw [run_disabled_aux [] raw []]
+    simp
+  refine ⟨h1, ?_⟩
+  simp only [h1]
+  exact C05_any_chunking fs hfs cs hcs
+
+/-- Sensitivity (seed C05-13): a layer that also keeps what it hands up raw delivers something else after the switch. -/
+theorem C05_bytes_kept_while_off_break_the_framing :
+    (recv { enabled := true, buf := [0] } (frame [7, 7])).2 ≠ [[7, 7]] := by
+  simp [recv, frame, be24, peel, rd24]
+
 /- Non-vacuity: concrete frames and a chunking that cuts inside a header satisfy the hypotheses. -/
 example : FramesOK [[7], [1, 2, 3, 4, 5]] := by
   intro f hf; simp at hf; rcases hf with h | h <;> subst h <;> simp
